@@ -762,16 +762,25 @@ def oracle(c, r):
                 # use - use again on the returned object, and the objects derived from it after its answers were cached
                 if hist.get("instance_again") is False or hist.get("best_again") is False:
                     add("history", "asking the same Samples object twice gives two answers (instance / max_log_likelihood_sample)")
-                for name, want_n in (("added", 2 * len(samples)), ("minimised", None), ("thresholded", len(samples)), ("copied", len(samples))):
+                for name, want_n in (("added", 2 * len(samples)), ("minimised", None), ("thresholded", len(samples)), ("copied", len(samples)),
+                                     ("added_better", len(samples) + 1), ("thresholded_best_removed", None)):
                     d = hist.get(name)
                     if not isinstance(d, dict):
                         continue
+                    dm = m
+                    if "want_ll" in d:
+                        dm = unhex(d["want_ll"])
+                    if "thr" in d:
+                        kept = [unhex(s_["ll"]) for s_ in samples if unhex(s_["w"]) > unhex(d["thr"])]
+                        if not kept:
+                            continue
+                        dm, want_n = max(kept), len(kept)
                     if want_n is not None and d["n"] != want_n:
                         add("history", "derived Samples (%s) has %d samples, expected %d" % (name, d["n"], want_n))
-                    if unhex(d["best_ll"]) != m or unhex(d["ll"]) != m:
-                        add("history", "derived Samples (%s): best log-likelihood %r / %r, maximum %r" % (name, d["best_ll"], d["ll"], m))
+                    if unhex(d["best_ll"]) != dm or unhex(d["ll"]) != dm:
+                        add("history", "derived Samples (%s): best log-likelihood %r / %r, maximum %r" % (name, d["best_ll"], d["ll"], dm))
                     dvals = values_of(d["best_kw"], "derived " + name)
-                    if dvals is not None and unhex(d["best_ll"]) == m:
+                    if dvals is not None and unhex(d["best_ll"]) == dm:
                         dvec = [dvals[k] for k in spec["creation"]]
                         if [unhex(x) for x in d["vec"]] != dvec:
                             add("history", "derived Samples (%s): best vector is not its best sample's parameters" % name)
